@@ -10,6 +10,8 @@ import tempfile
 import numpy as np
 
 from .. import gen
+
+gen.WIDE_RATE = 0   # wide (~100 operation) instances: too costly here / not needed
 from ..drive import Run
 
 ID = "C20"
@@ -62,6 +64,20 @@ def gen_cases(ctx):
         yield {"kind": "chart", "instance": inst, "seed": rng.randrange(2**31),
                "partial": rng.random() < 0.4, "xlim": rng.choice([None, None, "plus", "big", "minus"]),
                "labels": rng.random() < 0.3, "cmap": rng.choice(["viridis", "plasma", "tab20"])}
+    for i in range(ctx.scale(6, 300)):
+        # many machines (two-digit ids) / one crowded machine (>= 50 operations in one row)
+        if i % 2 == 0:
+            nm = rng.randint(11, 14)
+            inst = {"cls": "many_machines",
+                    "durations": [[rng.randint(1, 9) for _ in range(nm)] for _ in range(3)],
+                    "machines": [[[m] for m in rng.sample(range(nm), nm)] for _ in range(3)]}
+        else:
+            nj = rng.randint(50, 60)
+            inst = {"cls": "crowded_machine", "durations": [[rng.randint(1, 5)] for _ in range(nj)] + [[2, 3]],
+                    "machines": [[[0]] for _ in range(nj)] + [[[1], [0]]]}
+        yield {"kind": "chart", "instance": inst, "seed": rng.randrange(2**31) * 3 + 1, "partial": False,
+               "xlim": rng.choice([None, "plus"]), "labels": False, "cmap": "viridis",
+               "machine_labels": i % 4 == 2}
     lengths = [1, 9, 10, 11, 99, 100, 101, 120]
     if ctx.tier == "thorough":
         lengths += [2, 50, 150, 250, 999, 1000, 1001]
@@ -99,7 +115,7 @@ def read_bars(ax):
     return bars
 
 
-def check_chart(ctx, schedule, ax, want, xlim, labels, where):
+def check_chart(ctx, schedule, ax, want, xlim, labels, where, machine_labels=None):
     """want: list of (machine, start, end, job)."""
     bars = read_bars(ax)
     ctx.count("charts_checked")
@@ -133,6 +149,11 @@ def check_chart(ctx, schedule, ax, want, xlim, labels, where):
                 or ticks != sorted(ticks) or float(ticks[0]) != 0.0:
             ctx.violation("c20_time_axis", dict(w, xlim=list(xl), last_ticks=ticks[-3:], want_limit=limit))
     nm = len(schedule.schedule)
+    # the row of machine i carries the label of machine i (its id unless labels were given)
+    row_labels = [t.get_text() for t in ax.get_yticklabels()]
+    if row_labels != (machine_labels or [str(i) for i in range(nm)]):
+        ctx.violation("c20_machine_row_labels", dict(w, got=row_labels[:16],
+                                                     want=(machine_labels or [str(i) for i in range(nm)])[:16]))
     yt = [float(y) for y in ax.get_yticks()]
     if yt != [1.0 + 5 + 10 * i for i in range(nm)] or tuple(ax.get_ylim()) != (0.0, 1.0 + 10 * nm):
         ctx.violation("c20_machine_axis", dict(w, yticks=yt, ylim=list(ax.get_ylim())))
@@ -156,8 +177,9 @@ def run_chart(ctx, case):
     if labels and case["seed"] % 2 and r.num_jobs >= 2:
         labels = [f"family {j // 2}" for j in range(r.num_jobs)]     # two jobs share a label text
         ctx.count("charts_with_repeated_label_texts")
+    mlabels = [f"M:{i}" for i in range(r.num_machines)] if case.get("machine_labels") else None
     fig, ax = plot_gantt_chart(run.d.schedule, xlim=xlim, job_labels=labels, cmap_name=case["cmap"],
-                               number_of_x_ticks=rng.choice([15, 3, 7]))
+                               number_of_x_ticks=rng.choice([15, 3, 7]), machine_labels=mlabels)
     fig2 = None
     try:
         if case["seed"] % 3 == 0:
@@ -172,7 +194,7 @@ def run_chart(ctx, case):
             fig2, ax2 = plot_gantt_chart(run2.d.schedule, job_labels=labels, cmap_name=case["cmap"])
             ctx.count("second_chart_while_first_open")
             check_chart(ctx, run2.d.schedule, ax2, want2, None, labels, "second chart, same title")
-        check_chart(ctx, run.d.schedule, ax, want, xlim, labels, "plot_gantt_chart")
+        check_chart(ctx, run.d.schedule, ax, want, xlim, labels, "plot_gantt_chart", mlabels)
     finally:
         plt.close(fig)
         if fig2 is not None:
